@@ -52,6 +52,9 @@ type Verifier struct {
 	trivial          int
 	maxVisits        int
 	preamble         string
+	pureCalls        map[string]bool
+	symDepth         int
+	opaqueCalls      bool
 	escaped          map[*Object]bool
 	contains         map[*Object][]Value
 	opaqueGlobals    map[*ssa.Global]*Object
